@@ -226,7 +226,22 @@ def TextShownP (log : List RenderOp) (lc : Pos) (buf : Text) (hint : Option Text
 def ShownP (log : List RenderOp) (lc : Pos) (buf : Text) (pos : Nat) (hint : Option Text) : Prop :=
   ∃ rs g, ShownCore S R prompt log lc buf hint rs g ∧ splitAtByte buf pos = some (g.before, g.after)
 
+/-- some prompt — the read's own, or that of an incremental search —, the line and the cursor are shown -/
+def ShownA (log : List RenderOp) (lc : Pos) (buf : Text) (pos : Nat) (hint : Option Text) : Prop :=
+  ∃ rs g, Rep S R prompt log rs g ∧ rs.layout.cursor = lc ∧ C02_Plain S R g.hint ∧
+    (g.prompt = prompt ∨ C02_IsSearchPrompt g.prompt) ∧
+    splitAtByte buf pos = some (g.before, g.after) ∧ (g.hint = hint.getD [] ∨ g.hint = [])
+
 variable {S R prompt}
+
+theorem ShownP.any {log : List RenderOp} {lc : Pos} {buf : Text} {pos : Nat} {hint : Option Text}
+    (h : ShownP S R prompt log lc buf pos hint) : ShownA S R prompt log lc buf pos hint := by
+  obtain ⟨rs, g, hc, hs⟩ := h
+  exact ⟨rs, g, hc.rep, hc.cur, hc.hplain, Or.inl hc.own, hs, hc.hint⟩
+
+theorem ShownA.dirty {log : List RenderOp} {lc : Pos} {buf : Text} {pos : Nat} {hint : Option Text}
+    (h : ShownA S R prompt log lc buf pos hint) : DirtyP S R prompt log lc := by
+  obtain ⟨rs, g, hr, hc, hp, _⟩ := h; exact ⟨rs, g, hr, hc, hp⟩
 
 theorem ShownP.text {log : List RenderOp} {lc : Pos} {buf : Text} {pos : Nat} {hint : Option Text}
     (h : ShownP S R prompt log lc buf pos hint) : TextShownP S R prompt log lc buf hint := by
@@ -274,8 +289,9 @@ theorem dirty_refresh_own {log : List RenderOp} {lc : Pos} (h : DirtyP S R promp
 /-- a repaint under a dynamic prompt -/
 theorem dirty_refresh_dyn {log : List RenderOp} {lc : Pos} (h : DirtyP S R prompt log lc) (p b a : Text)
     (info : Option Text) (hfine : OpFine S R prompt (.refresh (some p) (b ++ a) (blen b) info)) :
-    DirtyP S R prompt (.refresh (some p) (b ++ a) (blen b) info :: log)
-      (calculatePosition S R b (calculatePosition S R p {})) := by
+    ∃ rs g, Rep S R prompt (.refresh (some p) (b ++ a) (blen b) info :: log) rs g ∧
+      rs.layout.cursor = calculatePosition S R b (calculatePosition S R p {}) ∧ C02_Plain S R g.hint ∧
+      g.prompt = p ∧ splitAtByte (b ++ a) (blen b) = some (g.before, g.after) ∧ g.hint = info.getD [] := by
   obtain ⟨rs, g, hrep, _, _⟩ := h
   obtain ⟨rs', happ, h1, _⟩ := rs_refresh_total S R rs p (calculatePosition S R p {}) false b a info
   obtain ⟨hp, _, hsplit⟩ := hfine
@@ -284,7 +300,16 @@ theorem dirty_refresh_dyn {log : List RenderOp} {lc : Pos} (h : DirtyP S R promp
   have hnext : C02_next S R prompt rs g (.refresh (some p) (b ++ a) (blen b) info) = ⟨p, b, a, info.getD []⟩ := by
     simp [C02_next, splitAtByte_append]
   rw [hnext] at hrep'
-  exact ⟨rs', _, hrep', h1, (hsplit b a (splitAtByte_append b a)).2.2⟩
+  exact ⟨rs', _, hrep', h1, (hsplit b a (splitAtByte_append b a)).2.2, rfl, splitAtByte_append b a, rfl⟩
+
+/-- a callback while some prompt is shown -/
+theorem any_sync {log : List RenderOp} {lc : Pos} {buf : Text} {pos : Nat} {hint : Option Text}
+    (h : ShownA S R prompt log lc buf pos hint) :
+    ShownA S R prompt (.sync buf pos hint :: log) lc buf pos hint := by
+  obtain ⟨rs, g, hrep, hcur, hpl, hpr, hs, hh⟩ := h
+  have hok : C02_StepOK S R prompt rs g (.sync buf pos hint) := ⟨hpr, hs, hh⟩
+  have happ : rs.apply S R prompt (.sync buf pos hint) = .ok { rs with out := [], segs := rs.out :: rs.segs } := rfl
+  exact ⟨_, _, hrep.cons hok happ, hcur, hpl, hpr, hs, hh⟩
 
 /-- the new cursor of a cursor-only move is not beyond the believed end -/
 theorem cursor_le_end {rs : RS} {g : C02_Shown} (hinv : C02_Inv S R prompt rs g) (hown : g.prompt = prompt)
@@ -359,7 +384,7 @@ theorem shown_sync {log : List RenderOp} {lc : Pos} {buf : Text} {pos : Nat} {hi
     (h : ShownP S R prompt log lc buf pos hint) :
     ShownP S R prompt (.sync buf pos hint :: log) lc buf pos hint := by
   obtain ⟨rs, g, hcore, hs⟩ := h
-  have hok : C02_StepOK S R prompt rs g (.sync buf pos hint) := ⟨hcore.own, hs, hcore.hint⟩
+  have hok : C02_StepOK S R prompt rs g (.sync buf pos hint) := ⟨Or.inl hcore.own, hs, hcore.hint⟩
   have happ : rs.apply S R prompt (.sync buf pos hint) = .ok { rs with out := [], segs := rs.out :: rs.segs } := rfl
   have hrep' := hcore.rep.cons hok happ
   exact ⟨_, _, ⟨hrep', hcore.cur, hcore.hplain, hcore.own, hcore.text, hcore.hint, hcore.le1, hcore.le2⟩, hs⟩
